@@ -465,7 +465,22 @@ func TestC07_Restart(t *testing.T) {
 			st.Exclude("update flag removed from a request that creates a hold (known finding " + pKeyUpdCreate + ")")
 		}
 		for ; pShortUpdExcluded > 0; pShortUpdExcluded-- {
-			st.Exclude("re-lock/update of a live hold replaced by a request with a fresh LockId (known findings " + pKeyShortUpd + ", " + pKeyLateDepth + ")")
+			st.Exclude("re-lock/update of a live hold whose old or new terms end near the outage replaced by a request with a fresh LockId (known finding " + pKeyShortUpd + ")")
+		}
+		for ; pUpdCountExcluded > 0; pUpdCountExcluded-- {
+			st.Exclude("update of a live hold keeps the hold's Count and Rcount (known finding " + pKeyUpdCount + ")")
+		}
+		for ; pLateOrderExcluded > 0; pLateOrderExcluded-- {
+			st.Exclude("re-lock/update of a live hold on a key with a holder that was not logged at its grant replaced by a request with a fresh LockId (known findings " + pKeyLateOrder + ", " + pKeyLateDepth + ")")
+		}
+		for ; pOldestExcluded > 0; pOldestExcluded-- {
+			st.Exclude("request for a held key uses the Count of the oldest holder (known finding " + pKeyOldest + ")")
+		}
+		for ; pLingerExcluded > 0; pLingerExcluded-- {
+			st.Exclude("request for a key that became free after carrying a value redirected to a key never used before (known finding " + pKeyLinger + ")")
+		}
+		for ; pLateDepthExcluded > 0; pLateDepthExcluded-- {
+			st.Exclude("aof timing flags removed from a re-lock/update of a hold not persisted at its grant (known finding " + pKeyLateDepth + ")")
 		}
 		if err != nil {
 			vFail(t, "TestC07_Restart", "C07:"+aViolKey(strings.SplitN(err.Error(), "\n", 2)[0]), c, "%v", err)
